@@ -259,16 +259,24 @@ func buildMix() {
 		}
 	}
 
-	// ~radix R: radix, mincol, padchar, commachar, comma-interval (every case
-	// meets the open finding that ~nR ignores its parameters: a small sample)
-	rSlots := []mixSlot{{lit: "8", val: iv(16)}, {lit: "12", val: iv(13)}, {char: true, lit: "'0", val: cv('_')}, {char: true, lit: "'.", val: cv('-')}, {lit: "2", val: iv(4)}}
+	// ~radix R: radix, mincol, padchar, commachar, comma-interval (an omitted
+	// radix with other parameters given is not defined, so the radix is always there)
+	rSlots := []mixSlot{{lit: "8", val: iv(16)}, {lit: "30", val: iv(31)}, {char: true, lit: "'0", val: cv('_')}, {char: true, lit: "'.", val: cv('-')}, {lit: "2", val: iv(4)}}
+	rHeads := []string{":r", ":@r", "r", "@r"}
 	for i, kinds := range mixTuples(rSlots) {
-		if kinds[0] == kOmit || kinds[0] == kNil || kinds[2] != kLit || kinds[3] != kOmit || kinds[4] == kNil || kinds[4] == kOmit {
+		if kinds[0] == kOmit || kinds[0] == kNil {
 			continue
 		}
 		ptxt, pre := mixPrefix(rSlots, kinds)
-		u := mixUnit{fam: "radix", txt: "~" + ptxt + []string{"r", ":r", "@r", ":@r"}[i%4], own: append(pre, iv(123456))}
-		emit(&mixProbes, u, "top", 4)
+		n := iv(1234567)
+		if i%2 == 1 {
+			n = iv(-1234567)
+		}
+		u := mixUnit{fam: "radix", txt: "~" + ptxt + rHeads[i%len(rHeads)], own: append(pre, n)}
+		emit(&mixProbes, u, "top", i%3)
+		emit(&mixProbes, u, mixContexts[1+i%(len(mixContexts)-1)], 1+i%2)
+		emit(&mixProbesThorough, u, "top", 3)
+		emit(&mixProbesThorough, u, mixContexts[1+(i+5)%(len(mixContexts)-1)], 2)
 	}
 
 	// ~T: colnum, colinc (colinc other than 1 without @ is an open finding, so
